@@ -103,9 +103,9 @@ let run_case op t =
       let rec go_s l acc = function
         | [] -> join (List.rev acc)
         | (_, o) :: r -> (
-            match spec_step l o with
-            | Some l' when fits cap l' -> go_s l' (list_s l' :: acc) r
-            | _ -> "na")
+            match spec_step_fits cap l o with
+            | Some l' -> go_s l' (list_s l' :: acc) r
+            | None -> "na")
       in
       (go_m (default_str cap ck) [ "ok" ] ops, go_s [] [ "ok" ] ops)
   | "replace" -> (
